@@ -247,7 +247,7 @@ Inductive ekind :=
 | EArgLocation | EUndefDirective2 | EArgUndefined | EArgDuplicate | EArgRequired | EArgNull2
 | EFragDup | EFragUndefType | EFragNotComposite | EFragUnused | EFragCycle | ESpreadUndefined
 | ESpreadNoParent | ESpreadParentLeaf | ESpreadImpossible
-| ENoValueInfo | ECoerceNull | ECoerceScalar | ECoerceList | ECoerceObject | ECoerceEnum
+| ENoValueInfo | ECoerceNull | ECoerceScalar | ECoerceList | ECoerceObject | ECoerceEnum | ECoerceNonInput
 | EObjDupField | EObjUnknownField | EObjRequired
 | EDirLocationNode | EDirUndefined | EDirLocation | EDirDuplicate
 | EVarDup | EVarUnknownType | EVarNotInput | EVarUndefined | EVarUnused
